@@ -9,5 +9,5 @@ CONSTANTS
   TimingPool <- TimingsA
   Seed = 1
   NRand = 400
-INVARIANT Emit
+INVARIANTS RefinesR Emit
 CHECK_DEADLOCK FALSE
